@@ -1,11 +1,12 @@
 """C09 — 3D bond-orientational order (boo_3d) equals Steinhardt's definitions.
 
-Reference-model differential: generated 3D configurations (orthogonal / LAMMPS-triclinic cells, every
-periodicity mask, particles optionally stored as periodic images outside the cell, 1-3 frames) with neighbour
-files written here in the library's format (`id cn neighborlist` header per frame, 1-based ids, rows in any id
-order, every particle >= 1 neighbour, asymmetric lists) and optional positive weight files.  The expected
-q_lm, Q_lm, q_l, w_l, w-hat_l, s_ij (+ thresholded count), G_l(r) columns and C_l(t) come from
-pbt/ref/steinhardt.py (own Y_lm recurrence, exact-rational Racah 3-j symbols).
+Reference-model differential: generated 3D configurations (orthogonal / LAMMPS-triclinic / axis-permuted general cells,
+every periodicity mask, particles optionally stored as periodic images outside the cell, 1-3 frames; thorough tier up to
+8 frames and N up to 513) with neighbour files written here in the library's format (`id cn neighborlist` header per
+frame, 1-based ids, rows in any id order, entries of a row in distance / id / reverse-id / random order, every particle
+>= 1 neighbour, directed lists) and optional positive weight files.  The expected q_lm, Q_lm, q_l, w_l, w-hat_l, s_ij
+(+ thresholded count), G_l(r) columns and C_l(t) come from pbt/ref/steinhardt.py (own Y_lm recurrence, exact-rational
+Racah 3-j symbols).
 
 Soundness of the numerical comparison (DESIGN 1.4): the reference returns, per particle, a derived bound `eps`
 on the componentwise error that any float64 implementation going through theta = arccos(z/r), phi = atan2(y, x)
@@ -14,16 +15,61 @@ length, both times the sup of |grad Y_lm|; floor 1e-11).  Tolerances of all deri
 from eps (q_l: sqrt(4 pi) eps; w_l: 3 |q|^2 ||dq||; w-hat_l: 6 ||dq||/|q|; s_ij: 2 ||dq_i||/|q_i| + 2 ||dq_j||/|q_j|
 + 1e-6 for the float32 storage).  Items whose conditioning bound exceeds 1e-3 (|q| ~ 0, where w-hat and s_ij are
 undefined) are not compared and are counted as `degenerate`.  Thresholded counts and histogram bins use the
-interval rule (margin 1e-5 around c; bins with a pair within 1e-9 of an edge are skipped).
+interval rule (margin 1e-5 around c; bins with a pair within 1e-9 of an edge are skipped).  The number of bins
+int(Lmin/2/rdelta) is the documented formula evaluated in double precision: it is one correctly rounded quotient
+whatever the order of the two divisions (halving and doubling are exact), hence crisp also at nominally integer quotients.
 
 Preconditions built into the generators (documented domain): no coincident particles and no half-cell
 minimum-image ties (particles sit on an odd g x g x g fractional grid with |jitter| < 0.24 grid cells, so every
-fractional separation stays >= 0.004 away from 1/2), every particle has >= 1 neighbour (boo.py L136 divides by
-cn), no particle lists itself, no neighbour listed twice (except what the library's own Voronoi writer emits),
-weights > 0 after formatting, same N and cell in all frames (asserted by boo_3d.__init__).
+fractional separation stays >= 0.02/g away from 1/2), every particle has >= 1 neighbour (boo.py L136 divides by
+cn), no particle lists itself (probed: the unchanged qlm_Qlm returns nan for a zero-length bond - out of domain), no
+neighbour listed twice (except what the library's own Voronoi writer emits), weights > 0 (signed weights would break the
+stated bound q_l <= 1 - out of domain), same N and edge lengths in all frames (asserted by boo_3d.__init__).
+
+CLAUSES (statement / quantifier -> facet : deciding assertion -> populated class tags; counts per quick run in evidence/C09.json)
+  configuration       N 2..30 (sizes: 31..133, thorough ..513), cell ortho / tri / general (axis-permuted, not lower
+                      triangular), any origin, all 8 masks on tilted cells, images outside the cell, 1..3 (deep: 4..8)
+                      frames, per-frame tilt, integer-dtype snapshot, compact block (no bond wraps)
+                      -> every facet through case_st : vectors() -> ortho tri general tri-ppp000..111 mask-partial outside
+                      sheared frames1..3 N2..N5 size-boundary-N31..N133 int64-snapshot compact-block wraps-none wraps-some
+                      batch-all-bonds-wrap bond-cartesian-short-but-wraps tilt-negative tilt-mixed-sign
+  neighbour file      header variants, trailing blanks, rows in any id order, entries by distance / id / reverse id /
+                      random, id text 7 / 7.0 / 7.000000e+00, cn 1..14 varying inside a frame (sizes: 29..33, 49..51,
+                      63..65), per-frame lists with the largest cn in any frame, Nmax default / exact / 200 / truncating
+                      -> write_files : vectors(), check_sij id / cn columns -> rows-shuffled order-* idfmt* cn-varies-within-frame
+                      p0-single-bond has-single-neighbour cn>=9 cn-boundary-* Nmax-* default-Nmax-truncates
+                      max-cn-differs-between-frames lists-directed lists-symmetric
+  neighbour definitions (N-nearest, cut-off, Voronoi) -> libneigh : files of the library's own writers -> writer-*
+  weight file         none / all equal / random positive / integer text; rows of the weight file shuffled independently;
+                      weights follow the entry order of the row -> vectors() -> w-* weighted-rows-not-id-sorted
+  degree l            2..12, python int / numpy int -> all -> l2..l12 l-odd l-even l-as-*
+  q_lm                weight-normalised mean of Y_lm over minimum-image bonds -> vectors(): smallqlm, qlm_Qlm()[0] (three
+                      evaluations) within eps
+  Q_lm                (q_i + sum_j q_j)/(1 + n_i), gathered over the particle's OWN list -> vectors(): largeQlm,
+                      qlm_Qlm()[1] -> lists-directed cg
+  q_l, Q_l            verify_ql: both flags, npy / dat / txt / extension-less output -> files0..3
+  w_l, w-hat_l        verify_w: both flags, output files, odd l exactly 0 -> w_cap w_cap_high_l history sizes; what-sign-mixed
+  s_ij + count        check_sij: list / stacked / outputsij text / csv, c in {-1,..,0.9} by the interval rule, three calls
+                      -> c* files* some-above-c none-above-c has-degenerate-pair
+  spatial correlation verify_spatial: r, gr, gA columns, csv, both flags twice -> bins-frac bins-crisp-dyadic
+                      bins-crisp-decimal floor-division-would-differ one-bin risky-bins
+  time correlation    verify_time: t axis, C_l(t), lag 0 == 1, csv, both flags twice -> even uneven
+                      uneven-repeated-timestep uneven-goes-back all-equal-timesteps even-backwards single dt-int
+  equal weights == unweighted   check_qlm, class w-equal (1e-12)
+  0 <= q_l <= 1, |s_ij| <= 1   verify_ql / check_rows on every case
+  tabulated crystals  crystals: fcc hcp bcc8 bcc14 sc ico x l4 l6 x bulk / rotated cluster
+  histories           calls (two degrees alternating, Wignerindex direct), history (all six methods twice in a drawn
+                      order, second object of the same degree and possibly the same shape, every result kept alive and
+                      re-compared bit for bit after every step) -> same-shape other-shape first-* *-twice-same-flag *-both-flags
+  Weak before round 3 and closed now: sizes stopped at N = 30 / cn = 14 (-> sizes, sizes_large); the order of the entries
+  inside a row was distance or random only (-> order-id, order-rev-id); results were compared and discarded at once (->
+  kept-alive checks in qlm / sij / w_cap / corr / history); every method was evaluated once per flag (-> second / third
+  evaluation); ql_Ql txt / extension-less output, integer-text weights, float-text ids, mask / degree representations,
+  integer snapshots, general cell matrices, non-monotonic timesteps, nominally integer bin quotients were never drawn.
 """
 from __future__ import annotations
 
+import itertools
 import math
 import os
 
@@ -39,28 +85,36 @@ from ..util import arr, close, col, columns, require
 from PyMatterSim.static.boo import boo_3d
 from PyMatterSim.neighbors.calculate_neighbors import Nnearests, cutoffneighbors
 from PyMatterSim.neighbors.freud_neighbors import cal_neighbors
-from PyMatterSim.reader.reader_utils import Snapshots
+from PyMatterSim.reader.reader_utils import SingleSnapshot, Snapshots
 from PyMatterSim.utils.funcs import Wignerindex
 
-RULE = ("3D configurations on a jittered odd fractional grid (N 5..30, ortho / triclinic cell, any origin, all 8 "
-        "periodicity masks, optional image offsets, 1..3 frames, sheared trajectories = per-frame tilt factors with the "
-        "same edge lengths, N down to 2) x synthetic neighbour files (k-nearest or random "
-        "asymmetric lists, cn 1..14 varying inside the frame with particle 1 on a single bond, shuffled rows, per-frame lists) x weights {none, all equal, random positive} x "
-        "l 2..12 x local / coarse-grained x Nmax {default, exact, large, truncating}; reference crystals fcc / hcp / "
-        "bcc(8,14) / sc / icosahedron as rotated open clusters and periodic bulk; neighbour files produced by the "
-        "library's own N-nearest / cut-off / Voronoi writers.  non-trivial = coordination differs between particles, "
-        "or weights non-uniform, or >= 2 frames (crystal facet: a rotated cluster or a periodic bulk crystal)")
+RULE = ("3D configurations on a jittered odd fractional grid (N 2..30; facet sizes 31..133; thorough ..513; ortho / triclinic / "
+        "axis-permuted general cell, any origin, all 8 periodicity masks (half of the tilted cases partial), optional image "
+        "offsets, compact no-wrap blocks, integer-dtype snapshots, 1..3 frames (thorough: 8), sheared trajectories = per-frame "
+        "tilt factors with the same edge lengths) x synthetic neighbour files (k-nearest or random directed lists, entries in "
+        "distance / id / reverse-id / random order, ids as 7 / 7.0 / 7.000000e+00, cn 1..14 varying inside the frame with "
+        "particle 1 on a single bond, cn 29..33 / 49..51 / 63..65 in facet sizes, shuffled rows, per-frame lists) x weights "
+        "{none, all equal, random positive, integer text} x l 2..12 (int / numpy int) x local / coarse-grained x Nmax {default, "
+        "exact, 200, truncating} x mask as array / list / tuple / float / bool; every method twice per object, all results kept "
+        "alive and re-compared; reference crystals fcc / hcp / bcc(8,14) / sc / icosahedron as rotated open clusters and "
+        "periodic bulk; neighbour files produced by the library's own N-nearest / cut-off / Voronoi writers.  non-trivial = "
+        "coordination differs between particles, or weights non-uniform, or >= 2 frames (crystal facet: a rotated cluster or "
+        "a periodic bulk crystal)")
 ASSUMPTIONS = [
     "Y_lm = orthonormal Condon-Shortley harmonics, vector order m = -l..l (contract of property C08)",
-    "minimum image = fractional rounding (contract of property C02); generated bonds are never within 0.004 "
-    "(fractional) of a half-cell tie, particles never coincide",
+    "minimum image = fractional rounding (contract of property C02); generated bonds are never within 0.02/g "
+    "(fractional, g = grid size) of a half-cell tie, particles never coincide, no particle lists itself (nan in the unchanged code)",
+    "weights are positive (the stated bound q_l <= 1 does not hold for signed weights)",
     "Nmax smaller than a coordination number means: the first Nmax listed neighbours (and weights) are used "
     "(documented behaviour of read_neighbors)",
     "spatial_corr returns the columns of the vector-conditional g(r) of property C13 (r, gr, gA) averaged over "
-    "frames; the prefactor 4 pi/(2l+1) and the ratio gA/gr of docs eq. (8) are left to the caller, as the "
-    "repository's own test does",
+    "frames with int(Lmin/2/rdelta) bins evaluated in double precision; the prefactor 4 pi/(2l+1) and the ratio gA/gr "
+    "of docs eq. (8) are left to the caller, as the repository's own test does",
+    "time_corr: all timestep differences equal (also all zero / all negative) = origin-averaged; otherwise the first frame is "
+    "the only origin; t = (timestep - first timestep) dt (contract of property C14)",
     "threshold c anywhere in [-1, 1): only listed bonds are counted, the zero padding of the s_ij table is not a bond",
     "tabulated crystal values: Steinhardt et al. 1983 / Mickel et al. 2013, compared at 1e-5",
+    "arrays / DataFrames returned by any method are the caller's: later calls on any boo_3d object leave them bit-for-bit unchanged",
 ]
 
 SQ = math.sqrt
@@ -68,59 +122,194 @@ SQ = math.sqrt
 
 # ============================================================================= generators
 
+PARTIAL_MASKS = [np.array(p, dtype=int) for p in itertools.product([0, 1], repeat=3) if 0 < sum(p) < 3]
+ORDERS = ("distance", "id", "rev-id", "random")
+PPP_REPRS = ("int64", "int64", "int64", "list", "tuple", "float64", "float32", "int32", "bool")
+ID_FORMATS = ("%d", "%d", "%d", "%.1f", "%.6e")
+# sizes around the block sizes a "vectorised" loop typically uses (EXTENSION_3 class 1)
+NS_QUICK = (31, 32, 33, 63, 64, 65, 99, 100, 101, 127, 128, 129, 133)
+NS_THOROUGH = (170, 199, 200, 201, 255, 256, 257, 266, 341, 399, 401, 499, 500, 501, 511, 512, 513)
+CN_BIG_QUICK = (29, 30, 31, 32, 33, 49, 50, 51, 63, 64, 65)
+CN_BIG_THOROUGH = (99, 100, 101, 127, 128, 129, 133, 199, 200, 201)
+
+
+def _unit(k):
+    return ((k * 2654435761) % 2 ** 32) / 2.0 ** 32
+
+
+_u32 = st.integers(0, 2 ** 32 - 1)
+
+
+def pick(values):
+    """Evenly spread choice (Hypothesis' own integer / sampled_from draws favour the first entries; the scrambled
+    index keeps the class histogram flat while still shrinking to values[0])."""
+    values = list(values)
+    return _u32.map(lambda k: values[min(int(_unit(k) * len(values)), len(values) - 1)])
+
+
+def _grid_for(N):
+    g = 3
+    while g ** 3 < N:
+        g += 2
+    return g
+
 
 @st.composite
-def frames_st(draw, cells, N, g, T, amp, ppp, outside):
-    """T position arrays on the jittered grid, frame k mapped through ITS OWN cell: lo + f_k @ H_k."""
+def frames_st(draw, cells, N, g, T, amp, ppp, outside, compact=False):
+    """T position arrays on the jittered grid, frame k mapped through ITS OWN cell: lo + f_k @ H_k.
+    compact: all sites from the sub-block ijk < (g+1)/2, so that no fractional separation reaches 1/2 (no bond needs
+    wrapping).  N > 40: sites / jitter / image offsets come from a numpy generator seeded by a drawn integer."""
     if isinstance(cells, dict):
         cells = [cells] * T
     pos = []
     sites = None
+    h = (g + 1) // 2
+    pool = [a * g * g + b * g + c for a in range(h) for b in range(h) for c in range(h)] if compact else None
+    rng = np.random.default_rng(draw(st.integers(0, 2 ** 32 - 1))) if N > 40 else None
     for k in range(T):
         if sites is None or amp == 0.0 or draw(st.booleans()):
-            sites = draw(st.lists(st.integers(0, g ** 3 - 1), min_size=N, max_size=N, unique=True))
+            if rng is not None:
+                sites = rng.permutation(g ** 3)[:N].tolist()
+            elif compact:
+                sites = draw(st.lists(st.sampled_from(pool), min_size=N, max_size=N, unique=True))
+            else:
+                sites = draw(st.lists(st.integers(0, g ** 3 - 1), min_size=N, max_size=N, unique=True))
         ijk = np.array([[s // (g * g), (s // g) % g, s % g] for s in sites], dtype=float)
-        if amp > 0:
+        if amp > 0 and rng is not None:
+            jit = amp * rng.uniform(-1.0, 1.0, size=(N, 3))
+        elif amp > 0:
             jit = amp * draw(hnp.arrays(np.float64, (N, 3), elements=fl(-1.0, 1.0)))
         else:
             jit = np.zeros((N, 3))
         f = (ijk + 0.5 + jit) / g
         offs = np.zeros((N, 3))
-        if outside:
+        if outside and rng is not None:
+            offs = rng.integers(-1, 2, size=(N, 3)).astype(float) * ppp
+        elif outside:
             offs = draw(hnp.arrays(np.int64, (N, 3), elements=st.integers(-1, 1))).astype(float) * ppp
         pos.append(cells[k]["lo"] + (f + offs) @ cells[k]["H"])
     return pos
 
 
-def _lists(rng, pos, H, ppp, mode, cn):
+def _lists(rng, pos, H, ppp, mode, cn, order="asis"):
+    """Neighbour rows of one frame: WHICH particles (the cn[i] nearest / a random subset) and IN WHICH ORDER they are
+    listed (by distance, by increasing id, by decreasing id, random)."""
     N = len(pos)
     out = []
     for i in range(N):
-        others = np.array([j for j in range(N) if j != i])
+        others = np.delete(np.arange(N), i)
+        vec, _ = S.min_image(pos[others] - pos[i], H, ppp)
+        d2 = (vec * vec).sum(axis=1)
         if mode == "nearest":
-            vec, _ = S.min_image(pos[others] - pos[i], H, ppp)
-            order = np.argsort((vec * vec).sum(axis=1), kind="stable")
-            out.append(others[order][: cn[i]])
+            sel = others[np.argsort(d2, kind="stable")][: cn[i]]
         else:
-            out.append(rng.permutation(others)[: cn[i]])
+            sel = rng.permutation(others)[: cn[i]]
+        if order == "id":
+            sel = np.sort(sel)
+        elif order == "rev-id":
+            sel = np.sort(sel)[::-1].copy()
+        elif order == "random":
+            sel = rng.permutation(sel)
+        elif order == "distance":
+            dd = dict(zip(others.tolist(), d2.tolist()))
+            sel = np.array(sorted(sel.tolist(), key=lambda j: dd[j]), dtype=int)
+        out.append(np.asarray(sel, dtype=int))
     return out
 
 
+def _schedule(draw, T, sched):
+    """Timesteps of the T frames.  even: constant step; uneven: increasing steps; repeated: one step is 0 (the same
+    timestep written twice); back: one step is negative; all-equal: every frame carries the same timestep."""
+    t0 = draw(st.integers(0, 10 ** 6))
+    if T == 1:
+        return [t0], "single"
+    step = draw(st.integers(1, 5000))
+    if T < 3 and sched == "uneven":
+        sched = "even"
+    if sched == "even":
+        dts = [step] * (T - 1)
+    elif sched == "all-equal":
+        dts = [0] * (T - 1)
+    else:
+        dts = [step]
+        for _ in range(T - 2):
+            dts.append(dts[-1] + draw(st.integers(1, 5000)))
+        if sched == "repeated":
+            dts[draw(st.integers(0, T - 2))] = 0
+        elif sched == "back":
+            dts[draw(st.integers(0, T - 2))] = -draw(st.integers(1, 5000))
+    ts = [t0]
+    for d_ in dts:
+        ts.append(ts[-1] + int(d_))
+    if min(ts) < 0:
+        ts = [t - min(ts) for t in ts]
+    return ts, sched
+
+
+def _rescale_min_edge(cell, Lnew):
+    """Copy of `cell` whose shortest edge length is exactly Lnew (the others at least Lnew), tilt ratios kept."""
+    H = np.array(cell["H"], dtype=float)
+    L = np.diag(H).copy()
+    a = int(np.argmin(L))
+    Ln = np.maximum(L, Lnew)
+    Ln[a] = Lnew
+    Hn = np.diag(Ln)
+    Hn[1, 0] = H[1, 0] / L[0] * Ln[0]
+    Hn[2, 0] = H[2, 0] / L[0] * Ln[0]
+    Hn[2, 1] = H[2, 1] / L[1] * Ln[1]
+    return dict(cell, H=Hn, origin="arbitrary")
+
+
 @st.composite
-def case_st(draw, frames=(1, 3), ls=(2, 3, 4, 5, 6, 6, 7, 8, 9, 10, 11, 12, 6, 4), weights=("none", "equal", "random"), nmax=30, nmin=2,
-            nmax_classes=("default", "default", "exact", "large", "trunc"), cmaxs=(6, 14, 3, 6, 14, 3, 6, 1), shear=True):
+def case_st(draw, frames=(1, 3), ls=(2, 3, 4, 5, 6, 6, 7, 8, 9, 10, 11, 12, 6, 4), weights=("none", "none", "equal", "random", "random", "integer"),
+            nmax=30, nmin=2, nmax_classes=("default", "default", "exact", "large", "trunc"), cmaxs=(6, 14, 3, 6, 14, 3, 6, 1), shear=True,
+            Ns=None, cn_big=None, n_fixed=None, bins=("frac", "frac", "frac", "crisp-dyadic", "crisp-decimal"), reprs=True,
+            scheds=("even", "even", "uneven", "uneven", "repeated", "back", "all-equal")):
     kind = draw(st.sampled_from(["ortho", "tri"]))
     cell = draw(cell_st(3, kind, lmin=2.0, lmax=30.0))
-    g = draw(st.sampled_from([3, 3, 5]))
-    # minimal sizes (N = 2..4) are their own small class; otherwise N >= 6 so that coordination can vary inside a frame
-    if nmin < 5 and draw(st.sampled_from([False] * 9 + [True])):
-        N = draw(st.integers(nmin, 4))
+    # ---- bin class of spatial_corr: nbins = int(Lmin / 2 / rdelta) (documented formula, a single correctly rounded
+    # quotient whatever the order of the two divisions: halving / doubling are exact).  frac: quotient = n + 0.1 / 0.5 /
+    # 0.9; crisp-dyadic: Lmin = 2 n rdelta exactly with rdelta = k/64; crisp-decimal: rdelta a two-digit decimal and
+    # Lmin = fl(2 n rdelta), where the floor of the EXACT quotient of the doubles may be n - 1 although the formula gives n
+    bincls = draw(pick(bins))
+    nb0 = draw(st.integers(1, 30))
+    binfrac = draw(st.sampled_from([0.1, 0.5, 0.9]))
+    Lmin0 = float(np.diag(cell["H"]).min())
+    if bincls == "crisp-dyadic":
+        rdelta = max(1, int(round(Lmin0 / (2 * nb0) * 64))) / 64.0
+        cell = _rescale_min_edge(cell, 2 * nb0 * rdelta)
+    elif bincls == "crisp-decimal":
+        rdelta = max(1, int(round(Lmin0 / (2 * nb0) * 100))) / 100.0
+        cell = _rescale_min_edge(cell, 2 * nb0 * rdelta)
     else:
-        N = draw(st.integers(max(nmin, 6), min(nmax, g ** 3)))
+        rdelta = None
+    # ---- sizes
+    if Ns is not None:
+        N = draw(pick(Ns))
+        g = _grid_for(N)
+    elif n_fixed is not None:
+        N = int(n_fixed)
+        g = draw(st.sampled_from([3, 3, 5])) if N <= 27 else _grid_for(N)
+    else:
+        g = draw(st.sampled_from([3, 3, 5]))
+        # minimal sizes (N = 2..4) are their own small class; otherwise N >= 6 so that coordination can vary inside a frame
+        if nmin < 5 and draw(st.sampled_from([False] * 9 + [True])):
+            N = draw(st.integers(nmin, 4))
+        else:
+            N = draw(st.integers(max(nmin, 6), min(nmax, g ** 3)))
     T = draw(st.integers(*frames))
     amp = draw(st.sampled_from([0.0, 0.02, 0.24, 0.24]))
-    ppp = draw(ppp_st(3))
+    # all partial masks on tilted cells are their own populated classes: half of the tilted cases draw a partial mask
+    if kind == "tri" and draw(st.booleans()):
+        ppp = draw(pick(PARTIAL_MASKS)).copy()
+    else:
+        ppp = draw(ppp_st(3))
     outside = draw(st.booleans())
+    # ordinary magnitudes as their own class: every particle inside the cell and inside one half-cell block, so that no
+    # bond needs wrapping (a fast path "nothing to wrap" is exact there and only there)
+    compact = bool(Ns is None and N <= ((g + 1) // 2) ** 3 and draw(pick(range(6))) == 3)
+    if compact:
+        outside = False
     # sheared trajectory: same edge lengths and origin (boo_3d asserts constant boxlength), per-frame tilt factors
     sheared = bool(shear and kind == "tri" and T >= 2 and draw(st.integers(0, 2)) > 0)
     cells = [cell]
@@ -134,30 +323,81 @@ def case_st(draw, frames=(1, 3), ls=(2, 3, 4, 5, 6, 6, 7, 8, 9, 10, 11, 12, 6, 4
             cells.append(dict(cell, H=Hk))
         else:
             cells.append(cell)
-    pos = draw(frames_st(cells, N, g, T, amp, ppp, outside))
+    # general cell matrix (EXTENSION_2 class 10): the tilted cell after an axis permutation, P H P^T, is no longer lower
+    # triangular; boo_3d takes whatever snapshot.hmatrix holds (same diagonal, same volume)
+    if kind == "tri" and draw(pick(range(4))) == 3:
+        perm = list(draw(pick([(0, 2, 1), (1, 0, 2), (1, 2, 0), (2, 0, 1), (2, 1, 0)])))
+        cells = [dict(c, H=c["H"][perm][:, perm].copy(), lo=c["lo"][perm].copy(), kind="general", origin="arbitrary") for c in cells]
+        cell = cells[0]
+        kind = "general"
+    pos = draw(frames_st(cells, N, g, T, amp, ppp, outside, compact))
+    # ---- integer representation (EXTENSION_2 class 3): a hand-built integer cell (edges and tilts multiples of 2g, integer
+    # origin) with the particles on integer coordinates; the snapshot then carries int64 positions / hmatrix / boxlength
+    intgrid = bool(reprs and Ns is None and not sheared and draw(pick(range(8))) == 3)
+    if intgrid:
+        a = np.array([draw(st.integers(1, 3)) for _ in range(3)])
+        Hi = np.diag(2 * g * a)
+        if kind in ("tri", "general"):
+            kind = "tri"
+            Hi[1, 0] = 2 * g * draw(st.integers(-(a[0] // 2), a[0] // 2))
+            Hi[2, 0] = 2 * g * draw(st.integers(-(a[0] // 2), a[0] // 2))
+            Hi[2, 1] = 2 * g * draw(st.integers(-(a[1] // 2), a[1] // 2))
+        loi = np.array([draw(st.integers(-20, 20)) for _ in range(3)])
+        cell = dict(cell, H=Hi.astype(float), lo=loi.astype(float), origin="arbitrary", kind=kind)
+        cells = [cell] * T
+        posi = []
+        for k in range(T):
+            sites = draw(st.lists(st.integers(0, g ** 3 - 1), min_size=N, max_size=N, unique=True))
+            ijk = np.array([[s // (g * g), (s // g) % g, s % g] for s in sites], dtype=np.int64)
+            offs = np.zeros((N, 3), dtype=np.int64)
+            if outside:
+                offs = draw(hnp.arrays(np.int64, (N, 3), elements=st.integers(-1, 1))) * ppp
+            num = (2 * ijk + 1 + 2 * g * offs) @ Hi
+            assert not np.any(num % (2 * g))
+            posi.append(loi + num // (2 * g))
+        pos = [p.astype(float) for p in posi]
+        amp, compact, bincls, rdelta = 0.0, False, "frac", None
     seed = draw(st.integers(0, 2 ** 32 - 1))
     rng = np.random.default_rng(seed)
     mode = draw(st.sampled_from(["nearest", "random"]))
+    order = draw(pick(ORDERS))
     cmax = min(draw(st.sampled_from(list(cmaxs))), N - 1)
     uniform_cn = draw(st.sampled_from([False] * 7 + [True]))
+    cb = None
+    if cn_big is not None:
+        ok = [c for c in cn_big if c + 2 <= N - 1]
+        if ok and draw(pick(range(3))) > 0:
+            cb = draw(pick(ok))
+            uniform_cn = False
     nl, w, rows = [], [], []
     wmode = draw(st.sampled_from(list(weights)))
     wconst = draw(st.sampled_from([1.0, 0.37, 12.5]))
+    kbig = draw(st.integers(0, T - 1))   # the frame that carries the largest coordination number of the trajectory
     for k in range(T):
+        ck = cmax if k == kbig else draw(st.integers(1, cmax))
         if uniform_cn:
             cn = np.full(N, draw(st.integers(1, cmax)), dtype=int)
         else:
-            cn = draw(hnp.arrays(np.int64, (N,), elements=st.integers(1, cmax)))
+            if N > 40:
+                cn = rng.integers(1, ck + 1, size=N)
+            else:
+                cn = draw(hnp.arrays(np.int64, (N,), elements=st.integers(1, ck)))
             # coordination varies inside the frame: particle 1 (index 0) has a single bond (|q_lm|^2 = (2l+1)/4pi, the
             # largest possible, so it is noticed wherever index 0 leaks through zero padding), another one the maximum
             cn[0] = 1
-            cn[-1] = cmax
-        lists = _lists(rng, pos[k], cells[k]["H"], ppp, mode, cn)
+            cn[-1] = ck
+            if cb is not None and k == kbig:
+                # neighbours per particle around a block size: three particles carry cb - 1, cb, cb + 1 neighbours
+                for j, c_ in zip(rng.permutation(np.arange(1, N))[:3], (cb - 1, cb, cb + 1)):
+                    cn[j] = c_
+        lists = _lists(rng, pos[k], cells[k]["H"], ppp, mode, cn, order)
         nl.append(lists)
         if wmode == "equal":
             w.append([np.full(len(x), wconst) for x in lists])
         elif wmode == "random":
             w.append([np.exp(rng.uniform(math.log(0.05), math.log(20.0), size=len(x))) for x in lists])
+        elif wmode == "integer":
+            w.append([rng.integers(1, 6, size=len(x)).astype(float) for x in lists])
         else:
             w.append(None)
         rows.append((rng.permutation(N), rng.permutation(N)) if draw(st.booleans()) else (np.arange(N), np.arange(N)))
@@ -167,25 +407,31 @@ def case_st(draw, frames=(1, 3), ls=(2, 3, 4, 5, 6, 6, 7, 8, 9, 10, 11, 12, 6, 4
         ncls = "exact"
     Nmax = {"default": None, "exact": maxcn, "large": 200,
             "trunc": draw(st.integers(1, max(1, maxcn - 1)))}[ncls]
-    t0 = draw(st.integers(0, 10 ** 6))
-    dts = [draw(st.integers(1, 5000))]
-    even = draw(st.booleans())
-    for _ in range(T - 2):
-        dts.append(dts[0] if even else dts[-1] + draw(st.integers(1, 5000)))
-    ts = [t0]
-    for k in range(T - 1):
-        ts.append(ts[-1] + dts[k])
+    ts, sched = _schedule(draw, T, draw(pick(scheds)))
+    # spatial_corr bins (Lmin of the final cell)
+    Lmin = float(np.diag(cell["H"]).min())
+    if rdelta is None:
+        rdelta = Lmin / 2.0 / (nb0 + binfrac)
+    nbins = int(Lmin / 2.0 / rdelta)
+    if nbins < 1:   # cannot happen for the classes above; keep the case valid anyway
+        rdelta, bincls = Lmin / 2.0 / 1.5, "frac"
+        nbins = 1
+    types = draw(st.sampled_from(["ones", "ones", "mixed", "labels13", "label7"]))
     return {
         "cell": cell, "cells": cells, "sheared": sheared, "pos": pos, "ppp": ppp, "timesteps": ts, "l": draw(st.sampled_from(list(ls))),
         "nl": nl, "w": w, "rows": rows, "wmode": wmode, "Nmax": Nmax, "ncls": ncls,
-        "wfmt": draw(st.sampled_from(["%.6f", "%.10g", "%r"])),
+        "wfmt": "%d" if wmode == "integer" else draw(st.sampled_from(["%.6f", "%.10g", "%r"])),
         "nhead": draw(st.sampled_from(["id cn neighborlist", "id     cn     neighborlist", "id   cn   neighborlist"])),
         "whead": draw(st.sampled_from(["id   cn   facearealist", "id cn weightlist", "id cn edgelengthlist"])),
         "trail": draw(st.booleans()),
         "cg": draw(st.booleans()), "c": draw(st.sampled_from([0.7, 0.7, 0.5, 0.0, 0.9, 0.2, -0.3, -1.0])),
-        "files": draw(st.integers(0, 3)), "dt": draw(st.sampled_from([0.002, 1.0, 0.005])),
-        "nbins": draw(st.integers(1, 30)), "binfrac": draw(st.sampled_from([0.1, 0.5, 0.9])),
-        "meta": {"g": g, "amp": amp, "mode": mode, "outside": bool(outside), "kind": kind, "seed": seed},
+        "files": draw(st.integers(0, 3)), "dt": draw(st.sampled_from([0.002, 1.0, 0.005, 1])),
+        "nbins": nbins, "rdelta": rdelta, "bincls": bincls, "sched": sched,
+        "idfmt": draw(pick(ID_FORMATS)) if reprs else "%d",
+        "ppp_repr": draw(pick(PPP_REPRS)) if reprs else "int64",
+        "int_repr": draw(st.sampled_from(["int", "int", "np.int64", "np.int32"])) if reprs else "int",
+        "intgrid": intgrid, "types": types, "order": order,
+        "meta": {"g": g, "amp": amp, "mode": mode, "outside": bool(outside), "kind": kind, "seed": seed, "compact": compact},
     }
 
 
@@ -199,6 +445,7 @@ def write_files(case, nfile="nb.dat", wfile="w.dat"):
     Nmax = case["Nmax"] if case["Nmax"] is not None else 30
     sep = " "
     tail = " \n" if case["trail"] else "\n"
+    idfmt = case.get("idfmt", "%d")   # neighbour entries as "7", "7.0" or "7.000000e+00" (the reader takes float(entry))
     eff = []
     with open(nfile, "w") as fn:
         fw = open(wfile, "w") if case["wmode"] != "none" else None
@@ -206,7 +453,7 @@ def write_files(case, nfile="nb.dat", wfile="w.dat"):
             lists = case["nl"][k]
             fn.write(case["nhead"] + "\n")
             for i in case["rows"][k][0]:
-                fn.write(sep.join([str(i + 1), str(len(lists[i]))] + [str(int(j) + 1) for j in lists[i]]) + tail)
+                fn.write(sep.join([str(i + 1), str(len(lists[i]))] + [idfmt % (int(j) + 1) for j in lists[i]]) + tail)
             wparsed = None
             if fw is not None:
                 fw.write(case["whead"] + "\n")
@@ -237,16 +484,66 @@ def reference(case, eff, l=None):
     return out
 
 
+def _types(case, N):
+    """boo_3d never looks at particle_type: any labels are accepted (EXTENSION_2 class 2)."""
+    t = case.get("types", "ones")
+    if t == "mixed":
+        return 1 + (np.arange(N) * 7 % 3)
+    if t == "labels13":
+        return np.where(np.arange(N) % 2 == 0, 1, 3)
+    if t == "label7":
+        return np.full(N, 7)
+    return np.ones(N, dtype=int)
+
+
+def _as_repr(v, kind):
+    """The same value in another accepted representation (probed on the unchanged tree: identical results)."""
+    if v is None or kind == "int":
+        return None if v is None else int(v)
+    return {"np.int64": np.int64, "np.int32": np.int32}[kind](v)
+
+
+def ppp_as(ppp, kind):
+    p = [int(x) for x in ppp]
+    if kind == "list":
+        return p
+    if kind == "tuple":
+        return tuple(p)
+    if kind == "bool":
+        return np.array(p, dtype=bool)
+    return np.array(p, dtype={"int64": np.int64, "float64": np.float64, "float32": np.float32, "int32": np.int32}[kind])
+
+
+def snapshot_int(cell, pos, types, ts):
+    """Hand-built snapshot whose positions / hmatrix / boxlength are int64 arrays (values are integers by construction)."""
+    H = np.asarray(cell["H"])
+    Hi, pi, loi = np.rint(H).astype(np.int64), np.rint(pos).astype(np.int64), np.rint(cell["lo"]).astype(np.int64)
+    assert np.array_equal(Hi, H) and np.array_equal(pi, pos)
+    L = np.diag(Hi).copy()
+    return SingleSnapshot(timestep=int(ts), nparticle=len(pi), particle_type=np.array(types, dtype=int), positions=pi,
+                          boxlength=L, boxbounds=np.stack([loi, loi + L], axis=1), realbounds=None, hmatrix=Hi.copy())
+
+
+def make_snaps(case):
+    N = len(case["pos"][0])
+    types = _types(case, N)
+    if case.get("intgrid"):
+        snaps_l = [snapshot_int(c, p, types, ts) for c, p, ts in zip(cells_of(case), case["pos"], case["timesteps"])]
+    else:
+        snaps_l = [snapshot_from(c, p, types, ts) for c, p, ts in zip(cells_of(case), case["pos"], case["timesteps"])]
+    return Snapshots(nsnapshots=len(snaps_l), snapshots=snaps_l)
+
+
 def make_boo(case, nfile, wfile, l=None):
-    snaps_l = [snapshot_from(c, p, np.ones(len(p), dtype=int), ts)
-               for c, p, ts in zip(cells_of(case), case["pos"], case["timesteps"])]
-    snaps = Snapshots(nsnapshots=len(snaps_l), snapshots=snaps_l)
+    snaps = make_snaps(case)
     kw = {}
+    ir = case.get("int_repr", "int")
     if case["Nmax"] is not None:
-        kw["Nmax"] = int(case["Nmax"])
+        kw["Nmax"] = _as_repr(case["Nmax"], ir)
     if wfile is not None:
         kw["weightsfile"] = wfile
-    return boo_3d(snaps, l=int(case["l"] if l is None else l), neighborfile=nfile, ppp=np.array(case["ppp"]), **kw), snaps
+    return boo_3d(snaps, l=_as_repr(case["l"] if l is None else l, ir), neighborfile=nfile,
+                  ppp=ppp_as(case["ppp"], case.get("ppp_repr", "int64")), **kw), snaps
 
 
 def close_eps(name, got, want, eps, rtol=1e-9):
@@ -275,15 +572,77 @@ def vectors(boo, ref, T, N, l):
     return q, Q, e, E
 
 
+def same_bits(name, now, then):
+    """A result handed out earlier is bit-for-bit what it was when it was returned (EXTENSION_3 class 3)."""
+    a, b = np.asarray(now), np.asarray(then)
+    require(a.shape == b.shape and np.array_equal(a, b, equal_nan=a.dtype.kind in "fc"),
+            lambda: f"{name}: a result returned earlier changed after later calls on the library "
+                    f"(max |change| = {np.nanmax(np.abs(np.asarray(a, dtype=complex) - np.asarray(b, dtype=complex))) if a.shape == b.shape else 'shape'})")
+
+
+def geometry_tags(case, ref):
+    """Measured classes of the bond geometry: wrapping, the tilted-cell critical region, poles, list symmetry."""
+    tags = []
+    ppp = np.asarray(case["ppp"])
+    pole = wraps = nowrap = allwrap = crit = False
+    for k, r in enumerate(ref):
+        H = cells_of(case)[k]["H"]
+        L = np.diag(H)
+        scale = float(np.abs(H).max())
+        for i, nb in enumerate(r["lists"]):
+            raw = case["pos"][k][nb] - case["pos"][k][i]
+            v = S.min_image(raw, H, ppp)[0]
+            pole = pole or bool(np.any(np.hypot(v[:, 0], v[:, 1]) < 1e-6 * np.abs(v[:, 2])))
+            wr = np.abs(raw - v).max(axis=1) > 1e-9 * scale
+            wraps = wraps or bool(wr.any())
+            nowrap = nowrap or bool((~wr).any())
+            allwrap = allwrap or bool(len(nb) >= 2 and wr.all())
+            # short in every Cartesian component, yet beyond the half cell in a fractional coordinate (tilted cells)
+            crit = crit or bool(np.any(wr & np.all(np.abs(raw) < 0.5 * L, axis=1)))
+    if pole:
+        tags.append("bond-on-z-axis")
+    tags.append("wraps-some" if wraps else "wraps-none")
+    if allwrap:
+        tags.append("batch-all-bonds-wrap")
+    if crit:
+        tags.append("bond-cartesian-short-but-wraps")
+    lists = ref[0]["lists"]
+    sets = [set(np.asarray(x).tolist()) for x in lists]
+    sym = all(i in sets[j] for i, nb in enumerate(lists) for j in nb)
+    tags.append("lists-symmetric" if sym else "lists-directed")
+    return tags
+
+
 def common_tags(case, ref):
     T = len(case["pos"])
+    N = len(case["pos"][0])
     cns = [len(x) for r in ref for x in r["lists"]]
-    tags = [case["meta"]["kind"], f"l{case['l']}", f"frames{T}", "w-" + case["wmode"], "Nmax-" + case["ncls"],
+    kind = case["meta"]["kind"]
+    mask = "".join(str(int(x)) for x in case["ppp"])
+    tags = [kind, f"l{case['l']}", f"frames{T}", "w-" + case["wmode"], "Nmax-" + case["ncls"],
             "lists-" + case["meta"]["mode"], "mask-full" if np.all(case["ppp"]) else "mask-partial",
             "outside" if case["meta"]["outside"] else "inside", f"amp{case['meta']['amp']}",
             "cn-varies" if len(set(cns)) > 1 else "cn-uniform",
             "rows-shuffled" if any(not np.array_equal(r[0], np.arange(len(r[0]))) for r in case["rows"]) else "rows-ordered",
-            "cg" if case["cg"] else "local", "sheared" if case.get("sheared") else "fixed-cell", f"N{min(len(case['pos'][0]), 5)}"]
+            "cg" if case["cg"] else "local", "sheared" if case.get("sheared") else "fixed-cell", f"N{min(N, 5)}",
+            "order-" + case.get("order", "asis"), "idfmt" + case.get("idfmt", "%d"), "ppp-as-" + case.get("ppp_repr", "int64"),
+            "l-as-" + case.get("int_repr", "int"), "types-" + case.get("types", "ones"), "l-odd" if case["l"] % 2 else "l-even"]
+    if kind in ("tri", "general"):
+        H = case["cell"]["H"]
+        tl = (H - np.diag(np.diag(H))).ravel()
+        tags.append(f"tri-ppp{mask}")
+        tags.append("tilt-mixed-sign" if (tl > 0).any() and (tl < 0).any() else ("tilt-negative" if (tl < 0).any() else "tilt-nonnegative"))
+    if case.get("intgrid"):
+        tags.append("int64-snapshot")
+    if case["meta"].get("compact"):
+        tags.append("compact-block")
+    if N >= 31:
+        tags.append(f"size-boundary-N{N}")
+    big = sorted({c for c in cns if c >= 29})
+    for c in big[-3:]:
+        tags.append(f"cn-boundary-{c}")
+    if case["Nmax"] is None and max(len(x) for fr in case["nl"] for x in fr) > 30:
+        tags.append("default-Nmax-truncates")
     if any(len(set(len(x) for x in r["lists"])) > 1 for r in ref):
         tags.append("cn-varies-within-frame")
         if all(len(r["lists"][0]) == 1 for r in ref) and min(S.norm(r["q"][0]) for r in ref) > 0.1:
@@ -292,20 +651,35 @@ def common_tags(case, ref):
         tags.append("has-single-neighbour")
     if max(cns) >= 9:
         tags.append("cn>=9")
-    pole = any(np.any(np.hypot(v[:, 0], v[:, 1]) < 1e-6 * np.abs(v[:, 2]))
-               for k, r in enumerate(ref) for i, nb in enumerate(r["lists"])
-               for v in [S.min_image(case["pos"][k][nb] - case["pos"][k][i], cells_of(case)[k]["H"], case["ppp"])[0]])
-    if pole:
-        tags.append("bond-on-z-axis")
-    return tags
+    if case["wmode"] in ("random", "integer") and case.get("order") in ("distance", "rev-id", "random"):
+        tags.append("weighted-rows-not-id-sorted")
+    return tags + geometry_tags(case, ref)
 
 
 def nontrivial(case, ref):
     cns = [len(x) for r in ref for x in r["lists"]]
-    return bool(len(set(cns)) > 1 or case["wmode"] == "random" or len(case["pos"]) >= 2)
+    return bool(len(set(cns)) > 1 or case["wmode"] in ("random", "integer") or len(case["pos"]) >= 2)
 
 
 # ============================================================================= facet: q_lm, Q_lm, q_l, Q_l
+
+
+def verify_ql(boo, l, vec, ee, cg, out=None, nm=None):
+    nm = nm or ("Q_l" if cg else "q_l")
+    got = boo.ql_Ql(coarse_graining=cg, outputfile=out)
+    want = S.ql(l, vec)
+    close_eps(f"ql_Ql(coarse_graining={cg})", got, want, SQ(4 * math.pi) * ee)
+    g = np.asarray(got)
+    require(np.all(g >= 0) and np.all(g <= 1 + 1e-9), lambda: f"{nm} outside [0,1]: min {g.min()!r} max {g.max()!r}")
+    if out is not None:
+        npy = out if out.endswith(".npy") else out + ".npy"
+        require(os.path.exists(npy), f"{nm}: {npy} not written")
+        close(f"{nm} npy file", np.load(npy), g, rtol=0, atol=0)
+        if out.endswith(".dat") or out.endswith(".txt"):
+            require(os.path.exists(out), f"{nm}: text file {out} not written")
+            txt = np.loadtxt(out, ndmin=2)
+            close(f"{nm} text file", txt, g, rtol=0, atol=5.1e-7)
+    return got
 
 
 def check_qlm(case):
@@ -315,39 +689,35 @@ def check_qlm(case):
     ref = reference(case, eff)
     boo, _ = make_boo(case, nfile, wfile)
     q, Q, e, E = vectors(boo, ref, T, N, l)
+    held = [("smallqlm attribute", boo.smallqlm, np.array(boo.smallqlm, copy=True)),
+            ("largeQlm attribute", boo.largeQlm, np.array(boo.largeQlm, copy=True))]
 
     again = boo.qlm_Qlm()
     require(isinstance(again, tuple) and len(again) == 2, "qlm_Qlm() does not return a pair")
     close("qlm_Qlm()[0] vs smallqlm", again[0], np.asarray(boo.smallqlm), rtol=0, atol=1e-14)
     close("qlm_Qlm()[1] vs largeQlm", again[1], np.asarray(boo.largeQlm), rtol=0, atol=1e-14)
+    held += [("qlm_Qlm()[0]", again[0], np.array(again[0], copy=True)), ("qlm_Qlm()[1]", again[1], np.array(again[1], copy=True))]
 
+    fmode = case["files"]  # 0: nothing / name without extension, 1: npy, 2: dat (+ npy), 3: txt (+ npy)
     for cg, vec, ee, nm in ((False, q, e, "q_l"), (True, Q, E, "Q_l")):
-        out = None
-        fmode = case["files"]
-        if fmode == 1:
-            out = f"{nm}.npy"
-        elif fmode == 2:
-            out = f"{nm}.dat"
-        got = boo.ql_Ql(coarse_graining=cg, outputfile=out)
-        want = S.ql(l, vec)
-        close_eps(f"ql_Ql(coarse_graining={cg})", got, want, SQ(4 * math.pi) * ee)
-        g = np.asarray(got)
-        require(np.all(g >= 0) and np.all(g <= 1 + 1e-9), lambda: f"{nm} outside [0,1]: min {g.min()!r} max {g.max()!r}")
-        if out is not None:
-            npy = out if out.endswith(".npy") else out + ".npy"
-            require(os.path.exists(npy), f"{nm}: {npy} not written")
-            close(f"{nm} npy file", np.load(npy), g, rtol=0, atol=0)
-            if out.endswith(".dat"):
-                require(os.path.exists(out), f"{nm}: text file {out} not written")
-                txt = np.loadtxt(out, ndmin=2)
-                close(f"{nm} text file", txt, g, rtol=0, atol=5.1e-7)
+        out = {0: (f"{nm}_noext" if case["trail"] else None), 1: f"{nm}.npy", 2: f"{nm}.dat", 3: f"{nm}.txt"}[fmode]
+        got = verify_ql(boo, l, vec, ee, cg, out, nm)
+        held.append((f"ql_Ql(coarse_graining={cg})", got, np.array(got, copy=True)))
 
-    tags = common_tags(case, ref)
+    tags = common_tags(case, ref) + [f"files{fmode}"]
     if case["wmode"] == "equal":
         # equal weights reproduce the unweighted result
         boo0, _ = make_boo(case, nfile, None)
         close("equal weights vs unweighted (q_lm)", boo.smallqlm, np.asarray(boo0.smallqlm), rtol=0, atol=1e-12)
         close("equal weights vs unweighted (Q_lm)", boo.largeQlm, np.asarray(boo0.largeQlm), rtol=0, atol=1e-12)
+    # a second evaluation of every method on the same object, then: everything handed out before is unchanged
+    third = boo.qlm_Qlm()
+    close_eps("qlm_Qlm()[0], third evaluation", third[0], q, e[:, :, None])
+    close_eps("qlm_Qlm()[1], third evaluation", third[1], Q, E[:, :, None])
+    verify_ql(boo, l, Q, E, True)
+    verify_ql(boo, l, q, e, False)
+    for name, now, then in held:
+        same_bits(name, now, then)
     return {"nontrivial": nontrivial(case, ref), "tags": tags}
 
 
@@ -446,9 +816,20 @@ def check_sij(case):
                         lambda: f"outputqlQl: count of s_ij > {c} for particle {i + 1}, frame {k} is {v!r}, "
                                 f"reference [{definite}, {definite + ambiguous}] (s = {np.round(s, 6).tolist()})")
 
+    # second evaluation on the same object with the other flag, then the first arguments again (list form): every
+    # answer is the one for its own arguments, and the first result is still what it was
+    held = [(f"sij_ql_Ql()[{k}]", got[k], np.array(got[k], copy=True)) for k in range(T)] if sfile is None \
+        else [("sij_ql_Ql(outputsij) return value", got, np.array(got, copy=True))]
+    _sij_list(f"sij_ql_Ql(coarse_graining={not cg}), second call", boo.sij_ql_Ql(coarse_graining=not cg, c=c), ref, l, not cg, T, N)
+    _sij_list(f"sij_ql_Ql(coarse_graining={cg}), third call", boo.sij_ql_Ql(coarse_graining=cg, c=c), ref, l, cg, T, N)
+    for name, now, then in held:
+        same_bits(name, now, then)
+
     tags = common_tags(case, ref) + [f"c{c}", f"files{fmode}"]
     if ndeg:
         tags.append("has-degenerate-pair")
+    if len(set(max(len(x) for x in r["lists"]) for r in ref)) > 1:
+        tags.append("max-cn-differs-between-frames")
     ncount = sum(int(np.sum(~d & (s > c))) for fr in sref for s, _, d in fr)
     tags.append("some-above-c" if ncount else "none-above-c")
     return {"nontrivial": nontrivial(case, ref), "tags": tags, "extra": {"degenerate_pairs": ndeg, "ambiguous_threshold": amb}}
@@ -457,17 +838,7 @@ def check_sij(case):
 # ============================================================================= facet: w_l, w-hat_l
 
 
-def check_w(case):
-    l, cg = case["l"], case["cg"]
-    T, N = len(case["pos"]), len(case["pos"][0])
-    nfile, wfile, eff = write_files(case)
-    ref = reference(case, eff)
-    boo, _ = make_boo(case, nfile, wfile)
-    q, Q, e, E = vectors(boo, ref, T, N, l)
-    vec, ee = (Q, E) if cg else (q, e)
-    fmode = case["files"]
-    ow = {0: None, 1: "w.npy", 2: "w.dat", 3: "w.txt"}[fmode]
-    oc = {0: None, 1: "wcap.npy", 2: "wcap.dat", 3: None}[fmode]
+def verify_w(boo, l, vec, ee, cg, T, N, ow=None, oc=None):
     got = boo.w_W_cap(coarse_graining=cg, outputw=ow, outputwcap=oc)
     require(isinstance(got, tuple) and len(got) == 2, "w_W_cap does not return a pair")
     w_ref, wh_ref, im = S.wl(l, vec)
@@ -482,6 +853,21 @@ def check_w(case):
     if ok.any():
         close_eps(f"w-hat_l (coarse_graining={cg})", gh[ok], wh_ref[ok], tol[ok] + 1e-12, rtol=1e-9)
         require(np.all(np.abs(gh[ok]) <= 1 + 1e-6), "|w-hat_l| > 1")
+    return got, gh, ok, wh_ref
+
+
+def check_w(case):
+    l, cg = case["l"], case["cg"]
+    T, N = len(case["pos"]), len(case["pos"][0])
+    nfile, wfile, eff = write_files(case)
+    ref = reference(case, eff)
+    boo, _ = make_boo(case, nfile, wfile)
+    q, Q, e, E = vectors(boo, ref, T, N, l)
+    vec, ee = (Q, E) if cg else (q, e)
+    fmode = case["files"]
+    ow = {0: None, 1: "w.npy", 2: "w.dat", 3: "w.txt"}[fmode]
+    oc = {0: None, 1: "wcap.npy", 2: "wcap.dat", 3: None}[fmode]
+    got, gh, ok, wh_ref = verify_w(boo, l, vec, ee, cg, T, N, ow, oc)
     for out, g, nm in ((ow, np.asarray(got[0]), "w"), (oc, gh, "w-hat")):
         if out is None:
             continue
@@ -494,6 +880,16 @@ def check_w(case):
             fin = np.isfinite(g) & (np.abs(g) < 1e6)
             close(f"{nm} text file", txt[fin], g[fin], rtol=1e-12, atol=5.1e-7)
     tags = common_tags(case, ref) + [f"files{fmode}"]
+    if l <= 4:
+        # second evaluation with the other flag (the Wigner table is rebuilt by sympy on every call: low degrees only;
+        # facet history does the same for l <= 6);
+        # the first pair is still what it was
+        held = [("w_W_cap()[0]", got[0], np.array(got[0], copy=True)), ("w_W_cap()[1]", got[1], np.array(got[1], copy=True))]
+        v2, e2 = (q, e) if cg else (Q, E)
+        verify_w(boo, l, v2, e2, not cg, T, N)
+        for name, now, then in held:
+            same_bits(name, now, then)
+        tags.append("second-call-other-flag")
     nskip = int((~ok).sum())
     if nskip:
         tags.append("has-degenerate-what")
@@ -504,34 +900,35 @@ def check_w(case):
 # ============================================================================= facet: spatial and time correlation
 
 
-def check_corr(case):
+def bins_of(case):
+    """(rdelta, nbins) of the case; nbins = int(Lmin / 2 / rdelta) evaluated in double precision as documented."""
+    lmin = float(np.diag(case["cell"]["H"]).min())
+    rdelta = case["rdelta"] if "rdelta" in case else lmin / 2.0 / (case["nbins"] + case["binfrac"])
+    return rdelta, int(lmin / 2.0 / rdelta)
+
+
+def verify_spatial(boo, case, vec, ee, cg, sfile="", cache=None):
     import pandas as pd
-    l, cg = case["l"], case["cg"]
     T, N = len(case["pos"]), len(case["pos"][0])
-    H, ppp = case["cell"]["H"], case["ppp"]
-    nfile, wfile, eff = write_files(case)
-    ref = reference(case, eff)
-    boo, _ = make_boo(case, nfile, wfile)
-    q, Q, e, E = vectors(boo, ref, T, N, l)
-    vec, ee = (Q, E) if cg else (q, e)
-    fmode = case["files"]
+    H, ppp, l = case["cell"]["H"], case["ppp"], case["l"]
     nq = S.norm(vec)
     pairerr = 2 * SQ(2 * l + 1) * ee.max() * max(nq.max(), 1e-300)
-
-    # ---- spatial
     lmin = float(np.diag(H).min())
-    rdelta = lmin / 2.0 / (case["nbins"] + case["binfrac"])
+    rdelta, nb = bins_of(case)
     vol = float(np.prod(np.diag(H)))
-    frames = [S.vector_gr(case["pos"][k], cells_of(case)[k]["H"], ppp, vec[k], rdelta, lmin, vol) for k in range(T)]
-    nb = case["nbins"]
+    if cache is not None and cg in cache:
+        frames = cache[cg]
+    else:
+        frames = [S.vector_gr(case["pos"][k], cells_of(case)[k]["H"], ppp, vec[k], rdelta, lmin, vol) for k in range(T)]
+        if cache is not None:
+            cache[cg] = frames
     assert all(len(f["r"]) == nb for f in frames)
     gr_ref = sum(f["gr"] for f in frames) / T
     gA_ref = sum(f["gA"] for f in frames) / T
     risky = np.any([f["risky"] for f in frames], axis=0)
-    sfile = "gl.csv" if fmode in (1, 2) else ""
     df = boo.spatial_corr(coarse_graining=cg, rdelta=rdelta, outputfile=sfile)
     columns("spatial_corr", df, ["r", "gr", "gA"])
-    require(len(df) == nb, f"spatial_corr has {len(df)} bins, expected int(Lmin/2/rdelta) = {nb}")
+    require(len(df) == nb, f"spatial_corr has {len(df)} bins, expected int(Lmin/2/rdelta) = int({lmin!r}/2/{rdelta!r}) = {nb}")
     close("spatial_corr r", col("spatial_corr", df, "r"), frames[0]["r"], rtol=1e-9, atol=1e-12)
     ok = ~risky
     # every pair in a bin contributes at most `pairerr` (+ summation rounding) times the bin's normalisation
@@ -545,9 +942,15 @@ def check_corr(case):
         require(len(d2) == nb, f"spatial_corr csv has {len(d2)} rows, expected {nb}")
         for cname in ("r", "gr", "gA"):
             close(f"spatial_corr csv {cname}", col("csv", d2, cname), col("df", df, cname), rtol=1e-12, atol=5.1e-9)
+    return {"df": df, "gA_ref": gA_ref, "ok": ok, "risky": risky, "lmin": lmin, "rdelta": rdelta, "nb": nb}
 
-    # ---- time
-    tfile = "ct.csv" if fmode in (2, 3) else ""
+
+def verify_time(boo, case, vec, ee, cg, tfile=""):
+    import pandas as pd
+    T, N = len(case["pos"]), len(case["pos"][0])
+    l = case["l"]
+    nq = S.norm(vec)
+    pairerr = 2 * SQ(2 * l + 1) * ee.max() * max(nq.max(), 1e-300)
     dt = case["dt"]
     dft = boo.time_corr(coarse_graining=cg, dt=dt, outputfile=tfile)
     columns("time_corr", dft, ["t", "time_corr"])
@@ -555,25 +958,70 @@ def check_corr(case):
     a0 = float((nq[0] ** 2).sum()) if T < 2 else float((nq ** 2).sum(axis=1).min())
     tvals = col("time_corr", dft, "t")
     cvals = col("time_corr", dft, "time_corr")
-    compared_time = False
+    compared = False
     if a0 > 1e-8:
         t_ref, c_ref = S.time_corr(vec, case["timesteps"], dt)
         close("time_corr t", tvals, t_ref, rtol=1e-12, atol=1e-12)
         tolC = 2 * (1 + np.abs(c_ref)) * N * pairerr / a0 + 1e-12
         close_eps("time_corr C_l(t)", cvals, c_ref, tolC, rtol=1e-9)
         require(float(cvals[0]) == 1.0, f"time_corr at lag zero is {cvals[0]!r}, not exactly 1")
-        compared_time = True
+        compared = True
         if tfile:
             require(os.path.exists(tfile), "time_corr outputfile not written")
             d2 = pd.read_csv(tfile)
             columns("time_corr csv", d2, ["t", "time_corr"])
             close("time_corr csv t", col("csv", d2, "t"), tvals, rtol=1e-12, atol=5.1e-9)
             close("time_corr csv C", col("csv", d2, "time_corr"), cvals, rtol=1e-12, atol=5.1e-9)
-    even = T >= 2 and len(set(np.diff(case["timesteps"]).tolist())) == 1
-    tags = common_tags(case, ref) + [f"files{fmode}", "even" if even else ("single" if T == 1 else "uneven"),
-                                     "risky-bins" if risky.any() else "no-risky-bins",
-                                     "gA-nonzero-bins>=3" if int((np.abs(gA_ref) > 0).sum()) >= 3 else "gA-few-bins"]
-    if not compared_time:
+    return {"df": dft, "compared": compared}
+
+
+def schedule_tag(case):
+    T = len(case["pos"])
+    if T == 1:
+        return "single"
+    d = np.diff(case["timesteps"])
+    if len(set(d.tolist())) == 1:
+        return "all-equal-timesteps" if d[0] == 0 else ("even-backwards" if d[0] < 0 else "even")
+    if (d < 0).any():
+        return "uneven-goes-back"
+    if (d == 0).any():
+        return "uneven-repeated-timestep"
+    return "uneven"
+
+
+def check_corr(case):
+    l, cg = case["l"], case["cg"]
+    T, N = len(case["pos"]), len(case["pos"][0])
+    nfile, wfile, eff = write_files(case)
+    ref = reference(case, eff)
+    boo, _ = make_boo(case, nfile, wfile)
+    q, Q, e, E = vectors(boo, ref, T, N, l)
+    vec, ee = (Q, E) if cg else (q, e)
+    fmode = case["files"]
+    cache = {}
+    sp = verify_spatial(boo, case, vec, ee, cg, "gl.csv" if fmode in (1, 2) else "", cache)
+    tm = verify_time(boo, case, vec, ee, cg, "ct.csv" if fmode in (2, 3) else "")
+    # second evaluations on the same object: the other flag, then the first arguments again; the DataFrames handed out
+    # first are still what they were
+    held = [("spatial_corr DataFrame", sp["df"], sp["df"].values.copy()), ("time_corr DataFrame", tm["df"], tm["df"].values.copy())]
+    v2, e2 = (q, e) if cg else (Q, E)
+    verify_time(boo, case, v2, e2, not cg)
+    verify_spatial(boo, case, v2, e2, not cg, cache=cache)
+    verify_spatial(boo, case, vec, ee, cg, cache=cache)
+    verify_time(boo, case, vec, ee, cg)
+    for name, df, then in held:
+        same_bits(name, df.values, then)
+    gA_ref, ok, risky = sp["gA_ref"], sp["ok"], sp["risky"]
+    rdelta, nb, lmin = sp["rdelta"], sp["nb"], sp["lmin"]
+    tags = common_tags(case, ref) + [f"files{fmode}", schedule_tag(case),
+                                     "risky-bins" if risky.any() else "no-risky-bins", "bins-" + case.get("bincls", "frac"),
+                                     "gA-nonzero-bins>=3" if int((np.abs(gA_ref) > 0).sum()) >= 3 else "gA-few-bins",
+                                     "dt-int" if isinstance(case["dt"], int) else "dt-float"]
+    if int(lmin // (2.0 * rdelta)) != nb:
+        tags.append("floor-division-would-differ")
+    if nb == 1:
+        tags.append("one-bin")
+    if not tm["compared"]:
         tags.append("time-degenerate")
     return {"nontrivial": nontrivial(case, ref) and bool((np.abs(gA_ref[ok]) > 0).any()), "tags": tags,
             "extra": {"risky_bins": int(risky.sum()), "bins_compared": int(ok.sum())}}
@@ -888,6 +1336,127 @@ def check_calls(case):
     return {"nontrivial": nontrivial(case, refs[l1]), "tags": tags}
 
 
+# ============================================================================= facet: call histories, results kept alive
+
+
+METHODS = ("qlm", "ql", "sij", "w", "spatial", "time")
+
+
+@st.composite
+def history_st(draw):
+    """Object A (every method named by the statement twice, flags drawn) and object B (SAME degree, other data - in half
+    of the cases also the same (frames, N), so that any buffer keyed on degree / shape is shared) used alternately in
+    a drawn order."""
+    ls = (2, 3, 4, 4, 5, 6, 6)
+    kw = dict(ls=ls, nmax=12, weights=("none", "random"), nmax_classes=("default", "exact"), reprs=False,
+              bins=("frac",), cmaxs=(6, 3, 6, 8))
+    A = draw(case_st(frames=(1, 2), **kw))
+    same_shape = draw(pick([True, False]))
+    T, N = len(A["pos"]), len(A["pos"][0])
+    kw["ls"] = (A["l"],)
+    if same_shape:
+        B = draw(case_st(frames=(T, T), n_fixed=N, **kw))
+    else:
+        B = draw(case_st(frames=(1, 2), **kw))
+    ops = [("A", m) for m in METHODS] * 2 + [("B", m) for m in METHODS]
+    order = draw(st.permutations(range(len(ops))))
+    flags = draw(st.lists(st.booleans(), min_size=len(ops), max_size=len(ops)))
+    return {"A": A, "B": B, "ops": [(ops[i][0], ops[i][1], bool(flags[i])) for i in order], "same_shape": same_shape,
+            # describe() looks at these
+            "l": A["l"], "cell": A["cell"], "ppp": A["ppp"], "pos": A["pos"], "wmode": A["wmode"], "Nmax": A["Nmax"], "cg": None,
+            "meta": A["meta"], "nl": A["nl"]}
+
+
+def check_history(case):
+    """Every method of boo_3d named by the statement is called twice on object A, interleaved in a drawn order with calls
+    on a second object B of the same degree built from other data.  Each answer must be the reference for the object and
+    arguments of THAT call; at the end every array / DataFrame handed out earlier (and the smallqlm / largeQlm
+    attributes) must still hold, bit for bit, what it held when it was returned."""
+    objs = {}
+    for key in ("A", "B"):
+        c = case[key]
+        T, N = len(c["pos"]), len(c["pos"][0])
+        nfile, wfile, eff = write_files(c, nfile=f"nb{key}.dat", wfile=f"w{key}.dat")
+        ref = reference(c, eff)
+        boo, _ = make_boo(c, nfile, wfile)
+        vec = vectors(boo, ref, T, N, c["l"])
+        objs[key] = {"case": c, "ref": ref, "boo": boo, "vec": vec, "T": T, "N": N}
+    held = []
+    for key, o in objs.items():
+        held += [(f"{key}.smallqlm", o["boo"].smallqlm, np.array(o["boo"].smallqlm, copy=True)),
+                 (f"{key}.largeQlm", o["boo"].largeQlm, np.array(o["boo"].largeQlm, copy=True))]
+
+    def keep(name, x):
+        held.append((name, x, np.array(x, copy=True)))
+
+    for step, (key, meth, cg) in enumerate(case["ops"]):
+        o = objs[key]
+        c, boo, ref, T, N = o["case"], o["boo"], o["ref"], o["T"], o["N"]
+        l = c["l"]
+        q, Q, e, E = o["vec"]
+        vec, ee = (Q, E) if cg else (q, e)
+        nm = f"step {step}: {key}.{meth}(coarse_graining={cg})"
+        try:
+            if meth == "qlm":
+                got = boo.qlm_Qlm()
+                require(isinstance(got, tuple) and len(got) == 2, "qlm_Qlm() does not return a pair")
+                close_eps("qlm_Qlm()[0]", got[0], q, e[:, :, None])
+                close_eps("qlm_Qlm()[1]", got[1], Q, E[:, :, None])
+                keep(nm + "[0]", got[0]); keep(nm + "[1]", got[1])  # noqa: E702
+            elif meth == "ql":
+                keep(nm, verify_ql(boo, l, vec, ee, cg))
+            elif meth == "sij":
+                got = boo.sij_ql_Ql(coarse_graining=cg, c=c["c"])
+                _sij_list("sij_ql_Ql", got, ref, l, cg, T, N)
+                for k in range(T):
+                    keep(nm + f"[{k}]", got[k])
+            elif meth == "w":
+                got = verify_w(boo, l, vec, ee, cg, T, N)[0]
+                keep(nm + "[0]", got[0]); keep(nm + "[1]", got[1])  # noqa: E702
+            elif meth == "spatial":
+                df = verify_spatial(boo, c, vec, ee, cg, cache=o.setdefault("gr_cache", {}))["df"]
+                held.append((nm, df, df.values.copy()))
+            else:
+                df = verify_time(boo, c, vec, ee, cg)["df"]
+                held.append((nm, df, df.values.copy()))
+        except Violation as v:
+            raise Violation(f"{nm}: {v}") from None
+        for name, now, then in held:       # after EVERY step: what was handed out before is unchanged
+            same_bits(f"{name} (checked after {nm})", now.values if hasattr(now, "columns") else now, then)
+    for key, o in objs.items():
+        vectors(o["boo"], o["ref"], o["T"], o["N"], o["case"]["l"])
+    A = case["A"]
+    first = {}
+    for key, meth, cg in case["ops"]:
+        if key == "A":
+            first.setdefault(meth, []).append(cg)
+    tags = [f"l{A['l']}", "same-shape" if case["same_shape"] else "other-shape", "first-" + case["ops"][0][0] + "." + case["ops"][0][1],
+            "w-" + A["wmode"], A["meta"]["kind"], f"framesA{len(A['pos'])}"]
+    tags += [f"{m}-twice-same-flag" if v[0] == v[1] else f"{m}-both-flags" for m, v in sorted(first.items())]
+    return {"nontrivial": nontrivial(A, objs["A"]["ref"]) or nontrivial(case["B"], objs["B"]["ref"]), "tags": tags,
+            "extra": {"results_kept_alive": len(held)}}
+
+
+# ============================================================================= facet: size boundaries / deep tier
+
+
+@st.composite
+def sized_st(draw, Ns, cn_big, frames=(1, 2), nmax_classes=("default", "default", "exact", "large", "trunc"), **kw):
+    """Sizes around typical block sizes (particles and neighbours per particle), dispatched over the four groups of
+    quantities.  w_W_cap rebuilds the sympy table on every call: low degrees there."""
+    what = draw(pick(["qlm", "qlm", "sij", "sij", "corr", "corr", "w"]))
+    ls = (2, 2, 3, 4) if what == "w" else (2, 3, 4, 5, 6, 6, 7, 8, 10, 11, 12)
+    case = draw(case_st(frames=frames, ls=ls, Ns=Ns, cn_big=cn_big, nmax_classes=nmax_classes, **kw))
+    case["what"] = what
+    return case
+
+
+def check_sized(case):
+    out = {"qlm": check_qlm, "sij": check_sij, "corr": check_corr, "w": check_w}[case["what"]](case)
+    out["tags"] = list(out["tags"]) + ["what-" + case["what"]]
+    return out
+
+
 # ============================================================================= descriptions and facets
 
 
@@ -895,18 +1464,20 @@ def describe(case):
     return {"l": case["l"], "cell": case["cell"]["kind"], "H": np.round(case["cell"]["H"], 4).tolist(),
             "ppp": np.asarray(case["ppp"]).tolist(), "N": int(len(case["pos"][0])), "frames": len(case["pos"]),
             "weights": case["wmode"], "Nmax": case["Nmax"], "cg": case["cg"], "meta": {k: v for k, v in case["meta"].items()},
+            "order": case.get("order"), "what": case.get("what"), "ops": case.get("ops"),
             "pos0": np.round(case["pos"][0][:3], 4).tolist(),
             "lists0": [(np.asarray(x) + 1).tolist() for x in case["nl"][0][:3]] if case.get("nl") else None}
 
 
 FACETS = [
     Facet("qlm", case_st(), check_qlm, quick=400, thorough=16000, describe=describe, shards_quick=4,
-          rule="smallqlm / largeQlm / qlm_Qlm() / ql_Ql (local and coarse-grained, npy and text output) against the "
-               "reference; equal-weights class also against the unweighted library result; non-trivial as in RULE"),
+          rule="smallqlm / largeQlm / qlm_Qlm() / ql_Ql (local and coarse-grained, npy / dat / txt / extension-less output) "
+               "against the reference, every method a second time on the same object, earlier results unchanged; "
+               "equal-weights class also against the unweighted library result; non-trivial as in RULE"),
     Facet("sij", case_st(), check_sij, quick=300, thorough=12000, describe=describe, shards_quick=3,
           rule="sij_ql_Ql: per-frame list / stacked array / outputsij text / outputqlQl csv layouts, s_ij values "
                "(float32 margin), |s_ij| <= 1, thresholded count by the interval rule for c in {-1, -0.3, 0, 0.2, 0.5, 0.7, 0.9}; "
-               "non-trivial as in RULE"),
+               "second and third call with the other / the same flag; non-trivial as in RULE"),
     Facet("w_cap", case_st(ls=(2, 3, 4, 4, 5, 6, 6, 8), nmax=16, frames=(1, 2)), check_w, quick=120, thorough=3000,
           describe=describe, shards_quick=4,
           rule="w_W_cap: w_l and w-hat_l (local or coarse-grained) with exact-rational 3-j symbols, output files; "
@@ -915,13 +1486,27 @@ FACETS = [
           describe=describe, shards_quick=2,
           rule="as w_cap for l in {7,9,10,11,12} (the library rebuilds the sympy table on every call: few cases)"),
     Facet("corr", case_st(), check_corr, quick=300, thorough=12000, describe=describe, shards_quick=3,
-          rule="spatial_corr (frame-averaged vector-conditional g(r): columns r, gr, gA, csv) and time_corr "
-               "(origin-averaged normalised autocorrelation, even / uneven / single frame, csv); non-trivial = RULE "
-               "and some compared bin with gA != 0"),
-    Facet("calls", calls_st(), check_calls, quick=30, thorough=1500, describe=describe, shards_quick=3,
+          rule="spatial_corr (frame-averaged vector-conditional g(r): columns r, gr, gA, csv; bins int(Lmin/2/rdelta) with "
+               "fractional, exactly dyadic and decimal integer quotients) and time_corr (origin-averaged normalised "
+               "autocorrelation; even / uneven / repeated / backward / all-equal timesteps / single frame, csv), each with "
+               "both flags and twice; non-trivial = RULE and some compared bin with gA != 0"),
+    Facet("calls", calls_st(), check_calls, quick=24, thorough=1500, describe=describe, shards_quick=3,
           rule="two boo_3d objects of different degree (l in 2..6) on the same files used alternately for ql_Ql / sij_ql_Ql / "
                "w_W_cap, the same object asked repeatedly with alternating coarse_graining flags, Wignerindex called "
                "directly for l1, l2, l1: every answer is the reference for the arguments of that call"),
+    Facet("history", history_st(), check_history, quick=36, thorough=1500, describe=describe, shards_quick=4,
+          rule="all six methods twice on one object in a drawn order, interleaved with a second object of the same degree "
+               "(other data, in half of the cases the same shape): each answer is the reference of its own call, and all "
+               "results handed out earlier are bit-for-bit unchanged at the end; non-trivial as in RULE for either object"),
+    Facet("sizes", sized_st(NS_QUICK, CN_BIG_QUICK), check_sized, quick=56, thorough=1600, describe=describe, shards_quick=4,
+          rule="N in {31..33, 63..65, 99..101, 127..129, 133} and 29..33 / 49..51 / 63..65 neighbours per particle "
+               "(default Nmax = 30 truncating or not), all four groups of quantities; non-trivial as in RULE"),
+    Facet("sizes_large", sized_st(NS_THOROUGH, CN_BIG_QUICK + CN_BIG_THOROUGH, frames=(1, 1)), check_sized, quick=0, thorough=320,
+          describe=describe,
+          rule="thorough tier only: N in {170, 199..201, 255..257, 266, 341, 399, 401, 499..501, 511..513}, up to 201 neighbours"),
+    Facet("deep", sized_st(None, None, frames=(4, 8), nmax=60, cmaxs=(6, 14, 20, 3, 12)), check_sized, quick=0, thorough=1600,
+          describe=describe,
+          rule="thorough tier only: 4..8 frames, N up to 60 (grid 5), up to 20 neighbours, all l, all four groups"),
     Facet("crystals", crystal_st(), check_crystal, quick=200, thorough=3000, describe=describe, shards_quick=4,
           rule="fcc / hcp / bcc(8) / bcc(14) / sc / icosahedron: rotated open clusters (list for the central atom) and "
                "periodic bulk crystals against the tabulated q4, q6, w-hat4, w-hat6 (1e-5); bulk: Q_l = q_l, s_ij = 1"),
@@ -934,8 +1519,12 @@ MANIFEST = {
     "text": ("boo_3d on generated 3D configurations, neighbour files and weight files: q_lm and coarse-grained Q_lm, "
              "q_l/Q_l, w_l and w-hat_l, s_ij with its thresholded count and all output layouts, spatial_corr and "
              "time_corr equal an independent implementation of Steinhardt's definitions (facets qlm, sij, w_cap, "
-             "w_cap_high_l, corr), also on sheared trajectories (each frame's own cell matrix) and when objects of different "
-             "degree / different coarse_graining flags are used alternately (facet calls); equal weights reproduce the unweighted result; 0 <= q_l <= 1, |s_ij| <= 1; perfect "
+             "w_cap_high_l, corr), also on sheared trajectories (each frame's own cell matrix), general (axis-permuted) cell "
+             "matrices, integer-dtype snapshots, every mask on tilted cells, neighbour rows in distance / id / random order, "
+             "sizes around block boundaries (N 31..133, 29..65 neighbours; thorough N ..513: facets sizes, sizes_large, deep), "
+             "when objects of different degree / different coarse_graining flags are used alternately (facet calls) and when "
+             "all methods are called twice in any order on two objects of the same degree with every earlier result kept "
+             "alive and unchanged (facet history); equal weights reproduce the unweighted result; 0 <= q_l <= 1, |s_ij| <= 1; perfect "
              "fcc/hcp/bcc/sc/icosahedral environments give the tabulated q4, q6, w-hat4, w-hat6 (facet crystals); "
              "files written by the library's own N-nearest, cut-off and Voronoi writers feed boo_3d consistently "
              "(facet libneigh)."),
@@ -943,7 +1532,8 @@ MANIFEST = {
              "Racah 3-j in exact rationals cross-checked against sympy), numpy. Assumes the C08 harmonic convention "
              "and the C02 minimum image; generated bonds never sit on a half-cell tie; |q| ~ 0 "
              "items (undefined w-hat, s_ij) are skipped and counted. spatial_corr is compared with the C13 columns "
-             "(r, gr, gA), not with the ratio of docs eq. (8)."),
+             "(r, gr, gA), not with the ratio of docs eq. (8). Self-listed neighbours (nan) and signed weights are outside the domain."),
     "technique": ("property-based testing (Hypothesis): reference-model differential with derived error bounds, "
-                  "metamorphic relation (equal weights == unweighted), tabulated-constant oracle for crystals"),
+                  "metamorphic relation (equal weights == unweighted), tabulated-constant oracle for crystals, "
+                  "call histories with results kept alive"),
 }
